@@ -117,7 +117,7 @@ class StlPastifier(LtlPastifier, StlAstVisitor):
         child_node = self.visit(node.children[0], node_horizon)
         node = TimedHistorically(child_node, Interval(node.begin, node.end))
         if horizon > 0:
-            node = TimedOnce(child_node, Interval(horizon, horizon))
+            node = TimedOnce(node, Interval(horizon, horizon))
         return node
 
     def visitTimedSince(self, node, *args, **kwargs):
